@@ -1180,7 +1180,11 @@ def _get_sample_imports(sample: Dict, rpc: wrappers.Method) -> List[str]:
     """Returns sorted sample import statements."""
     module_namespace = ".".join(sample["module_namespace"])
     module_name = sample["module_name"]
-    module_import = f"from {module_namespace} import {module_name}"
+    module_import = (
+        f"from {module_namespace} import {module_name}"
+        if module_namespace
+        else f"import {module_name}"
+    )
 
     address = rpc.input.meta.address
     # This checks if the request message is part of the service proto package.
@@ -1226,6 +1230,7 @@ def generate_sample(
     # Tweak some small aspects of the sample to set defaults for optional
     # fields, add fields that are required for the template, and so forth.
     v.preprocess_sample(sample, api_schema, rpc)
+    sample["client_method_name"] = utils.to_snake_case(rpc.client_method_name)
     sample["request"] = v.validate_and_transform_request(
         calling_form, sample["request"]
     )
